@@ -328,7 +328,7 @@ string JSON::serialize(uint32_t options, size_t indent_level) const {
 
     case 3: { // double
       string ret = string_printf("%g", this->as_float());
-      if (ret.find('.') == string::npos) {
+      if (ret.find_first_of(".e") == string::npos) {
         return ret + ".0";
       }
       return ret;
